@@ -973,10 +973,40 @@ func errEdges(call *ssa.Call, success bool) []Edge {
 // bytes.Equal) is known to be `want`.
 func boolEdges(fn *ssa.Function, v ssa.Value, want bool) []Edge {
 	return condEdges(fn, func(cond ssa.Value) (bool, bool) {
-		if cond != v {
-			return false, false
+		if cond == v {
+			return want, !want
 		}
-		return want, !want
+		// a local flag that merges v with the constant !want (result variable of an inlined helper,
+		// `ok := false; if … { ok = f() }`): the flag being `want` implies v was `want`
+		if phi, ok := cond.(*ssa.Phi); ok {
+			sawV := false
+			okAll := true
+			seen := map[*ssa.Phi]bool{}
+			var flat func(p *ssa.Phi)
+			flat = func(p *ssa.Phi) {
+				if seen[p] {
+					return
+				}
+				seen[p] = true
+				for _, ed := range p.Edges {
+					switch x := ed.(type) {
+					case *ssa.Phi:
+						flat(x)
+					default:
+						if ed == v {
+							sawV = true
+						} else if b, isC := boolConst(ed); !isC || b == want {
+							okAll = false
+						}
+					}
+				}
+			}
+			flat(phi)
+			if sawV && okAll {
+				return want, !want
+			}
+		}
+		return false, false
 	})
 }
 
